@@ -28,7 +28,7 @@ def search(S):
     for k in range(N):
         psi = float(rng.uniform(-np.pi, np.pi)) if k % 7 else float(rng.choice([0.0, np.pi / 2, np.pi, -np.pi / 2, 2.4, -2.9]))
         # ---- position controller
-        trim = float(rng.uniform(5, 40))
+        trim = float(rng.uniform(5, 40)) if k % 4 else float(rng.uniform(-12, 5))      # every 4th: small / zero / negative trim (demanded force at or below the horizon)
         ep, ev, at = rng.normal(size=3) * rng.choice([0.1, 1, 5]), rng.normal(size=3), rng.normal(size=3)
         zi = float(rng.normal())
         pw, vw = rng.normal(size=3), rng.normal(size=3)
